@@ -713,10 +713,36 @@ func (e *Exec) zeroResults(fn *ssa.Function) Value {
 	return e.zero(res)
 }
 
+func stripTypeArgs(s string) string {
+	if !strings.Contains(s, "[") {
+		return s
+	}
+	var sb strings.Builder
+	depth := 0
+	for i := 0; i < len(s); i++ {
+		switch s[i] {
+		case '[':
+			depth++
+		case ']':
+			depth--
+		default:
+			if depth == 0 {
+				sb.WriteByte(s[i])
+			}
+		}
+	}
+	return sb.String()
+}
+
 func (e *Exec) lookupIntrinsic(fn *ssa.Function) func(e *Exec, args []Value, call *ssa.CallCommon) Value {
 	name := fn.String()
 	if in, ok := e.intrinsics[name]; ok {
 		return in
+	}
+	if strings.Contains(name, "[") {
+		if in, ok := e.intrinsics[stripTypeArgs(name)]; ok {
+			return in
+		}
 	}
 	if o := fn.Origin(); o != nil {
 		if in, ok := e.intrinsics[o.String()]; ok {
